@@ -126,7 +126,7 @@ pub fn run(cfg: &Cfg) -> (Log, Meta) {
   log.floor("day.month_start_adjacencies", 119_000);
   log.floor("day.year_start_adjacencies", 9_999);
   log.floor("day.cutover_adjacency_1582", 2);
-  log.floor("day.lunar_month_boundary_adjacencies", 120_000);
+  log.floor("day.lunar_month_boundary_adjacencies", 100_000);
   log.floor("day.sixty_cycle_day_route", cfg.tier.pick(100_000, 3_600_000));
   log.floor("lunar.days_from_the_lunar_side", cfg.tier.pick(50_000, 3_600_000));
   let meta = Meta {
